@@ -76,7 +76,9 @@ type cSnapshot struct {
 // CMode is the state of one concurrency-mode analysis.
 type CMode struct {
 	x           *Exec
-	deadThreads map[*cThread]bool // threads left out of the encoding (their go statement does not exist in the final pass)
+	guards      map[Ptr]*guardInfo // lock slot / sync.Map slot -> guarded object (lib.VerifGuarded)
+	gsnaps      map[string]Value   // guarded states by content key
+	deadThreads map[*cThread]bool  // threads left out of the encoding (their go statement does not exist in the final pass)
 	threads     []*cThread
 	byKey       map[string]*cThread
 	cands       map[string][]string // cell -> candidate values (initial value first)
@@ -562,6 +564,9 @@ func (cm *CMode) addCandBy(addr, val string, who int) {
 		cm.candSet[addr][val] = true
 		cm.cands[addr] = append(cm.cands[addr], val)
 		cm.changed = true
+		if os.Getenv("GOSYM_DEBUG") == "2" {
+			fmt.Fprintf(os.Stderr, "CAND pass=%d %s += %s\n", cm.Stats.Passes, addr, shortVal(val))
+		}
 	}
 }
 
@@ -1482,7 +1487,25 @@ func (cm *CMode) extract(out string) []*cNode {
 			}
 		}
 	}
-	sort.SliceStable(sel, func(i, j int) bool { return clk[sel[i].id] < clk[sel[j].id] })
+	// equal clocks occur only between events of different threads that the constraints leave
+	// unordered; a read that shares its clock with a write of the same cell was constrained as if it
+	// came first ("writes strictly before the read" count), so reads go before writes on ties
+	rank := func(n *cNode) int {
+		switch n.ev.kind {
+		case 'R', 'N':
+			return 0
+		case 'W', 'U':
+			return 2
+		}
+		return 1
+	}
+	sort.SliceStable(sel, func(i, j int) bool {
+		ci, cj := clk[sel[i].id], clk[sel[j].id]
+		if ci != cj {
+			return ci < cj
+		}
+		return rank(sel[i]) < rank(sel[j])
+	})
 	for _, n := range sel {
 		e := n.ev
 		switch e.kind {
@@ -1825,14 +1848,34 @@ func (cm *CMode) replaySchedule(sel []*cNode) (string, string) {
 			return
 		}
 		x.cur = ctl
-		x.block(func() bool {
+		allDone := func() bool {
 			for _, g := range x.gs[1:] {
 				if !g.done {
 					return false
 				}
 			}
 			return true
-		}, "replay controller")
+		}
+		x.block(allDone, "replay controller")
+		// quiescence: the observer (lib.VerifAtQuiescence) runs once every thread has finished
+		for _, t := range cm.threads {
+			if !t.observer || t.root == nil {
+				continue
+			}
+			used := false
+			for _, n := range sel {
+				if n.thr == t {
+					used = true
+				}
+			}
+			if !used {
+				continue
+			}
+			g := x.spawn(t.fn, t.args, "replay:"+t.name)
+			rp.thrOf[g] = t
+			x.cur = ctl
+			x.block(allDone, "replay controller (observer)")
+		}
 		x.finish(pathEnd{kind: "done"})
 	}()
 	ctl.wake <- struct{}{}
